@@ -117,7 +117,7 @@ impl Property for C15 {
         let mut cfg = sqlgen::gen_table_cfg(rng);
         if rng.chance(1, 3) {
             // make TIMESTAMP / BOOLEAN arguments common enough
-            cfg = sqlgen::TableCfg { variant: sqlgen::Variant::Capture, kmod: sqlgen::KMod::None, nmod: sqlgen::NMod::None, with_b: true, with_ts: true, order: vec!["k", "n", "r", "b", "d"] };
+            cfg = sqlgen::TableCfg { variant: sqlgen::Variant::Capture, kmod: sqlgen::KMod::None, nmod: sqlgen::NMod::None, with_b: true, b_not_null: false, with_ts: true, order: vec!["k", "n", "r", "b", "d"] };
         }
         let mut lc = sqlgen::gen_line_cfg(rng);
         lc.bad_n_pct = 0;
@@ -142,7 +142,25 @@ impl Property for C15 {
         let big_n = rng.chance(1, 8);
         let split_law = rng.chance(1, 3);
         let bool_only = !huge && !big_real && rng.chance(1, 12);
-        let query = if bool_only {
+        // REAL values that are not numbers under the aggregates that only count: every NaN is its own value,
+        // whenever it arrives (split tables only: the other patterns admit digits only)
+        let nan_real = !huge && !big_real && !bool_only && rng.chance(1, 15);
+        if nan_real {
+            cfg = sqlgen::TableCfg { variant: sqlgen::Variant::Split, kmod: sqlgen::KMod::None, nmod: sqlgen::NMod::None, with_b: false, b_not_null: false, with_ts: false, order: vec!["k", "n", "r"] };
+        }
+        let query = if nan_real {
+            let mut q = sqlgen::Query::default();
+            q.aggregate = true;
+            q.projections = vec!["COUNT(DISTINCT r) AS dc".to_owned(), "COUNT(r) AS c".to_owned(), "COUNT(*) AS a".to_owned()];
+            if rng.chance(1, 2) {
+                q.group_by = vec!["k".to_owned()];
+                q.projections.push("k".to_owned());
+            }
+            if rng.chance(1, 3) {
+                q.having = Some(format!("COUNT(DISTINCT r) >= {}", rng.range(1, 3)));
+            }
+            q
+        } else if bool_only {
             // only BOOL_AND / BOOL_OR in the select list (they saturate), other aggregates in HAVING only
             let mut q = sqlgen::Query::default();
             q.aggregate = true;
@@ -196,7 +214,7 @@ impl Property for C15 {
             sqlgen::gen_aggregate(rng, &cfg, &AggCfg { order_insensitive: true, allow_join: true, max_aggs: 5 })
         };
         let mut query = query;
-        if !split_law && !huge && rng.chance(1, 6) {
+        if !split_law && !huge && !nan_real && rng.chance(1, 6) {
             // groups come out in key order, so the first n groups do not depend on arrival order either
             query.limit = Some(rng.range(1, 3) as usize);
         }
@@ -230,6 +248,15 @@ impl Property for C15 {
         for s in specs.iter_mut() {
             if s.r.is_some() && rng.chance(1, 3) {
                 s.r = Some(sqlgen::fmt_quarter(rng.range(-65536, 65536)));
+            }
+        }
+        if nan_real {
+            for s in specs.iter_mut() {
+                if rng.chance(1, 2) {
+                    s.r = Some(rng.pick(&["NaN", "NaN", "nan", "-NaN", "inf", "-inf"]).to_string());
+                } else {
+                    s.r = Some(sqlgen::fmt_quarter(rng.range(-2, 2)));
+                }
             }
         }
         if big_real {
@@ -300,7 +327,7 @@ impl Property for C15 {
             "stmt": query.text(),
             "joined": if query.join.is_some() { J::String(enc(&gen::join_lines(&joined, true))) } else { J::Null },
             "group_keys": query.group_by,
-            "split_law": split_law && !huge && !big_real,
+            "split_law": split_law && !huge && !big_real && !nan_real,
             "specs": specs.iter().map(spec_to_json).collect::<Vec<_>>(),
             "orders": orders,
             "cut": rng.below(n + 1),
@@ -438,6 +465,25 @@ impl Property for C15 {
             }
         }
 
+        // --- how the input is split into files must not matter either, for any statement (HAVING included): the
+        // same lines as two input files of one run (the first one possibly without its final newline)
+        if reference.status == Status::Ok {
+            let cut = jusize(case, "cut", 0).min(n);
+            let la: Vec<Vec<u8>> = ident[..cut].iter().map(|i| lines[*i].clone()).collect();
+            let lb: Vec<Vec<u8>> = ident[cut..].iter().map(|i| lines[*i].clone()).collect();
+            let first_nl = jusize(case, "cut", 0) % 2 == 0 || la.last().map(|l| l.is_empty()).unwrap_or(true);
+            let mut two = batch_spec(&defs, &stmt, &[gen::join_lines(&la, first_nl), gen::join_lines(&lb, true)], joined.as_deref());
+            two.format = format.clone();
+            let tr = run(&mut out, "A and B as two input files", &two, false);
+            let obs = (status_label(&tr.status), records(&tr));
+            if tr.terminated() && obs != ref_obs {
+                out.violate("c15.split_files", format!("{}: lines 0..{} and {}.. given as two input files print {} {} but as one input {} {}", stmt, cut, cut, obs.0, show(&obs.1), ref_obs.0, show(&ref_obs.1)), features.clone());
+                return out;
+            }
+            out.probe("two_input_files", 1);
+            out.probe("two_input_files_with_having", upper.contains(" HAVING ") as u64);
+        }
+
         // --- split law
         if jbool(case, "split_law") && reference.status == Status::Ok && format == "json" && !upper.contains(" HAVING ") {
             let cut = jusize(case, "cut", 0).min(n);
@@ -445,20 +491,8 @@ impl Property for C15 {
             let part = |out: &mut Outcome, idx: &[usize], label: &str| run_order(out, idx, label, false);
             let a = part(&mut out, &ident[..cut], "part A");
             let b = part(&mut out, &ident[cut..], "part B");
-            // the concatenation as two input files of one run (the first one possibly without its final newline)
             {
                 let la: Vec<Vec<u8>> = ident[..cut].iter().map(|i| lines[*i].clone()).collect();
-                let lb: Vec<Vec<u8>> = ident[cut..].iter().map(|i| lines[*i].clone()).collect();
-                let first_nl = jusize(case, "cut", 0) % 2 == 0 || la.last().map(|l| l.is_empty()).unwrap_or(true);
-                let mut two = batch_spec(&defs, &stmt, &[gen::join_lines(&la, first_nl), gen::join_lines(&lb, true)], joined.as_deref());
-                two.format = format.clone();
-                let tr = run(&mut out, "A and B as two input files", &two, false);
-                let obs = (status_label(&tr.status), records(&tr));
-                if tr.terminated() && obs != ref_obs {
-                    out.violate("c15.split_files", format!("{}: lines 0..{} and {}.. given as two input files print {} {} but as one input {} {}", stmt, cut, cut, obs.0, show(&obs.1), ref_obs.0, show(&ref_obs.1)), features.clone());
-                    return out;
-                }
-                out.probe("two_input_files", 1);
                 // part A named twice on the command line: the same as a file that holds A's lines twice
                 if !la.is_empty() {
                     let file_a = gen::join_lines(&la, true);
@@ -530,6 +564,7 @@ impl Property for C15 {
         out.probe("join_statement", joined.is_some() as u64);
         out.probe("large_more_than_16_lines", (n > 16) as u64);
         out.probe("huge_more_than_4096_values_in_a_group", (n > 4096) as u64);
+        out.probe("nan_or_infinite_real_values", lines.iter().any(|l| l.ends_with(b"NaN") || l.ends_with(b"nan") || l.ends_with(b"inf")) as u64);
         out.probe("bool_aggregates_only_in_select_list", (upper.contains("BOOL_") && !upper.contains("COUNT(*) AS") && upper.contains(" HAVING ")) as u64);
         out.probe("with_limit", upper.contains(" LIMIT ") as u64);
         out.probe("identical_adjacent_lines", lines.windows(2).any(|w| w[0] == w[1]) as u64);
